@@ -26,9 +26,9 @@ import ast
 import itertools
 from typing import Callable, Dict, List, Optional, Sequence, Tuple
 
-from ..astutil import ancestors, attr_chain, call_name, match, names_in, set_parents, stmts_of, walk_no_nested
+from ..astutil import ancestors, attr_chain, call_name, match, names_in, set_parents, stmts_of, walk_no_nested, returns_of
 from ..closedform import classify
-from ..constfold import Folder, Unfoldable
+from ..constfold import Folder, PySeq, Unfoldable
 from ..core import OK, UNDECIDED, VIOLATION, AnalysisError, ClassInfo, FuncInfo, Repo, Report, unparse
 from ..frag import FragRaise, FragReturn, run_fragment
 from .c14 import fold_buffers, label_generator
@@ -627,6 +627,105 @@ def rule_bit_dtype(repo: Repo, rep: Report) -> int:
     return n
 
 
+def rule_oqpsk_interleave(repo: Repo, rep: Report) -> int:
+    """The OQPSK demodulator returns, for every row, i0 q0 i1 q1 ...: each return expression of forward is evaluated (own
+    list arithmetic) with the in-phase / quadrature decision tensors replaced by labelled index tensors, for inputs of shape
+    (N,), (B, N) and (B1, B2, N).  Which operand is the in-phase one is read from the dataflow (y.real / y.imag)."""
+    dem = repo.method(repo.cls(f"{MD}/oqpsk.py", "OQPSKDemodulator"), "forward")
+    prov: Dict[str, str] = {}
+    assigns = [s_ for s_ in ast.walk(dem.node) if isinstance(s_, ast.Assign) and len(s_.targets) == 1 and isinstance(s_.targets[0], ast.Name)]
+    for _ in range(4):
+        for s_ in assigns:
+            tags = set()
+            for x in ast.walk(s_.value):
+                if isinstance(x, ast.Attribute) and x.attr in ("real", "imag") and isinstance(x.value, ast.Name) and x.value.id == "y":
+                    tags.add(x.attr)
+                elif isinstance(x, ast.Name) and x.id in prov:
+                    tags.add(prov[x.id])
+            if len(tags) == 1:
+                prov[s_.targets[0].id] = tags.pop()
+    shape_names = {s_.targets[0].id: s_.value for s_ in assigns if unparse(s_.value) in ("y.shape", "y.size()")}
+    n = 0
+    for r in returns_of(dem.node):
+        rails = [x.id for x in ast.walk(r.value) if isinstance(x, ast.Name) and x.id in prov]
+        rails = list(dict.fromkeys(rails))
+        what = f"I/Q interleave: return {unparse(r.value)[:110]}"
+        n += 1
+        if len(rails) != 2 or {prov[a] for a in rails} != {"real", "imag"}:
+            rep.undecided("OUTPUT", dem, what, f"in-phase / quadrature operands not identified ({rails})", node=r)
+            continue
+        # an element-wise function of one rail (a comparison, a cast, a scaling) keeps the rail's layout: it is replaced by
+        # the rail itself, so that only the shuffling part of the expression is evaluated
+        SHUFFLE = {"reshape", "view", "cat", "stack", "permute", "transpose", "flatten", "repeat", "repeat_interleave", "tile", "expand", "unbind", "chunk", "split"}
+
+        class Abstract(ast.NodeTransformer):
+            def visit_Call(self, node):
+                # the callee expression itself (`rail.reshape`) is not a value: only receiver, arguments and keywords are
+                if isinstance(node.func, ast.Attribute):
+                    used = {x.id for x in ast.walk(node) if isinstance(x, ast.Name) and x.id in prov}
+                    shapes_used = any(isinstance(x, ast.Name) and x.id in shape_names for x in ast.walk(node))
+                    shuffles = any(isinstance(x, ast.Call) and ((call_name(x) or "").split(".")[-1] in SHUFFLE or (attr_chain(x.func) or "").startswith("self.")) for x in ast.walk(node))
+                    if len(used) == 1 and not shapes_used and not shuffles:
+                        return ast.copy_location(ast.Name(id=used.pop(), ctx=ast.Load()), node)
+                    node.func.value = self.visit(node.func.value)
+                node.args = [self.visit(a) for a in node.args]
+                for k in node.keywords:
+                    k.value = self.visit(k.value)
+                return node
+
+            def generic_visit(self, node):
+                if isinstance(node, ast.expr) and not isinstance(node, (ast.List, ast.Tuple, ast.Starred, ast.Name, ast.Constant)):
+                    used = {x.id for x in ast.walk(node) if isinstance(x, ast.Name) and x.id in prov}
+                    shapes_used = any(isinstance(x, ast.Name) and x.id in shape_names for x in ast.walk(node))
+                    shuffles = any(isinstance(x, ast.Call) and ((call_name(x) or "").split(".")[-1] in SHUFFLE or (attr_chain(x.func) or "").startswith("self.")) for x in ast.walk(node))
+                    if len(used) == 1 and not shapes_used and not shuffles:
+                        return ast.copy_location(ast.Name(id=used.pop(), ctx=ast.Load()), node)
+                return super().generic_visit(node)
+
+        expr = ast.fix_missing_locations(Abstract().visit(ast.parse(unparse(r.value), mode="eval").body))
+        methods = {f"self.{k}": v.node for k, v in dem.cls.methods.items()} if dem.cls is not None else {}
+        bad = None
+        try:
+            for shp in ((4,), (2, 3), (2, 2, 3)):
+                def lab(off, shape=shp, base=[0]):
+                    def mk(dims, row):
+                        if len(dims) == 1:
+                            return [row * 1000 + 2 * j + off for j in range(dims[0])]
+                        return [mk(dims[1:], row * dims[0] + i) for i in range(dims[0])]
+                    return mk(list(shape), 0)
+                names: Dict[str, object] = {k: PySeq(shp) for k in shape_names}
+                for a in rails:
+                    names[a] = lab(0 if prov[a] == "real" else 1)
+                fo = Folder(names, {"self._normalization": 1.0})
+                fo.funcs = methods
+                got = fo.fold(expr)
+                want_rows = []
+                def rows(z):
+                    if isinstance(z, list) and z and not isinstance(z[0], list):
+                        want_rows.append(z)
+                    elif isinstance(z, list):
+                        for t in z:
+                            rows(t)
+                rows(got)
+                for row in want_rows:
+                    base = (row[0] // 1000) * 1000 if row else 0
+                    if row != [base + t for t in range(2 * shp[-1])]:
+                        bad = (shp, row)
+                        break
+                if bad or len(want_rows) == 0:
+                    break
+        except Unfoldable as exc:
+            rep.undecided("OUTPUT", dem, what, f"not evaluable ({exc})", node=r)
+            continue
+        if bad:
+            shp, row = bad
+            names_ = ["i" + str((v % 1000) // 2) if v % 2 == 0 else "q" + str((v % 1000) // 2) for v in row]
+            rep.violation("OUTPUT", dem, what, f"for an input of shape {shp} a row comes out as {' '.join(names_)} instead of i0 q0 i1 q1 ...: the bits of a symbol are no longer adjacent (batched inputs are de-interleaved), so the modulator's bit order is not restored", node=r)
+        else:
+            rep.ok("OUTPUT", dem, what, "i0 q0 i1 q1 ... in every row for 1-D, 2-D and 3-D inputs", node=r)
+    return n
+
+
 def _hard_body(dem: FuncInfo):
     return configured(dem.body, lambda t: True if unparse(t) == "noise_var is None" else (False if unparse(t) == "noise_var is not None" else None))
 
@@ -695,13 +794,20 @@ def sign_rail(rep: Report, mod: FuncInfo, dem: FuncInfo, amp_name: str, dec_name
         if isinstance(s_, ast.Assign) and len(s_.targets) == 1 and isinstance(s_.targets[0], ast.Name):
             single.setdefault(s_.targets[0].id, []).append(s_.value)
     local = {k: v[0] for k, v in single.items() if len(v) == 1 and k not in ("x_reshaped", "x")}
+    # any name for the (..., N, 2) view of the bit tensor is modelled by its two rails
+    pair_views = {k for k, v in local.items() if isinstance(v, ast.Call) and isinstance(v.func, ast.Attribute) and v.func.attr in ("reshape", "view") and isinstance(v.func.value, ast.Name) and v.func.value.id == "x" and v.args and isinstance(v.args[-1], ast.Constant) and v.args[-1].value == 2}
+    for k in pair_views:
+        local.pop(k)
     src = [x.id for x in ast.walk(d[0].value) if isinstance(x, ast.Name) and x.id.startswith("y_")]
     try:
         out = {}
         for b in (0, 1):
             names = dict(local)
             names.update({"x_reshaped": [b, b], "x": b})
-            amp = Folder(names, {"self._normalization": norm}).fold(a[0].value)
+            names.update({k: [b, b] for k in pair_views})
+            fo_ = Folder(names, {"self._normalization": norm})
+            fo_.funcs = {f"self.{k}": v.node for k, v in mod.cls.methods.items()} if mod.cls is not None else {}
+            amp = fo_.fold(a[0].value)
             out[b] = Folder({s_: amp for s_ in src}).fold(d[0].value)
     except Unfoldable as exc:
         rep.undecided("SIGN", mod, what, f"not evaluable with literal arithmetic ({exc})")
@@ -1227,6 +1333,7 @@ def run(repo: Repo, rep: Report, tier: str) -> None:
     n = rule_label(repo, rep)
     n += rule_sign(repo, rep)
     n += rule_bit_dtype(repo, rep)
+    n += rule_oqpsk_interleave(repo, rep)
     n += rule_count(repo, rep)
     n += rule_memory(repo, rep)
     n += rule_output(repo, rep)
